@@ -276,6 +276,33 @@ def _copy_of(f, l, depth=0):
     return l
 
 
+def _computed_from(f, op, target, limit=200):
+    """is the operand computed from local `target` (an identity / key derived from the node: `seen.insert(id_of(&node))`)?"""
+    seen = set()
+    st = [op_local(op)]
+    while st and len(seen) < limit:
+        l = st.pop()
+        if l is None or l in seen:
+            continue
+        if l == target:
+            return True
+        seen.add(l)
+        for d in f.whole_defs(l):
+            if d[0] == "assign":
+                rv = d[3]
+                if rv[0] == "use":
+                    st.append(op_local(rv[1]))
+                elif rv[0] == "ref":
+                    st.append(place_local(rv[2]))
+                elif rv[0] == "agg":
+                    st += [op_local(o) for o in rv[2]]
+                elif rv[0] in ("cast", "un"):
+                    st.append(op_local(rv[-1]))
+            elif d[0] == "call":
+                st += [op_local(a) for a in d[2]["args"]]
+    return False
+
+
 def _worklist(crate, f, h, hb, popc, body, calls):
     W = _root(f, popc["args"][0])
     popped = place_local(popc["dest"])
@@ -332,7 +359,8 @@ def _worklist(crate, f, h, hb, popc, body, calls):
                 if key in from_pop:
                     guarded = True
                     continue
-                if key != r0 or sb not in dom.get(b, set()):
+                if (key != r0 and not (len(tc["args"]) > 1 and r0 is not None and _computed_from(f, tc["args"][1], r0))) \
+                        or sb not in dom.get(b, set()):
                     continue
                 # the push lies on the "not yet seen" side
                 want = 0 if "contains" in (tc.get("res") or "") else 1
@@ -420,7 +448,7 @@ def r1e_loop_progress(ctx):
 def r1e_worklist_unbounded(ctx):
     r = Result("R1e-b", "a pop-driven worklist that searches a graph (cycle detection, import closure) skips a node only because "
                         "of what the search has already seen: no branch inside the loop compares a length or a counter with an "
-                        "integer constant >= 2 (a depth / size bound). A bound makes the search incomplete in a way no small "
+                        "integer constant >= 8 (a depth / size bound). A bound makes the search incomplete in a way no small "
                         "test shows: nodes past the bound are marked visited by the walk that gave up, so a cycle longer than "
                         "the bound is never reported")
     crate = ctx.bin
@@ -444,7 +472,7 @@ def r1e_worklist_unbounded(ctx):
                     for o in (st[2][2], st[2][3]):
                         k = op_const(o)
                         v = k.get("v") if k else None
-                        if v is not None and str(v).isdigit() and int(v) >= 2 and not (st[-1][4] if isinstance(st[-1], list) and len(st[-1]) > 4 else "").startswith("macro:"):
+                        if v is not None and str(v).isdigit() and int(v) >= 8 and not (st[-1][4] if isinstance(st[-1], list) and len(st[-1]) > 4 else "").startswith("macro:"):
                             bounds.append((int(v), st[-1]))
             key = "R1e-b|%s|numeric bound in worklist" % f.id
             if bounds:
